@@ -191,6 +191,7 @@ type Engine struct {
 	stats        Stats
 	covers       map[string]int
 	violations   []*Violation
+	giveUp       bool // this entry ended inconclusive; its remaining work is dropped
 	knownHits    []*Violation
 	samples      []map[string]any
 	stubsHit     map[string]int
@@ -1053,11 +1054,20 @@ func (e *Engine) ExploreTask(t *task) {
 				e.stop = e.pool == nil || e.pool.noteViolation()
 			} else {
 				e.noteInconclusive("unwinding failure: " + res.msg)
-				e.stop = true
+				e.giveUp = true
 			}
 		case "engine":
 			e.noteInconclusive("engine: " + res.msg)
-			e.stop = true
+			e.giveUp = true
+		}
+		if e.giveUp {
+			if e.pool != nil {
+				e.pool.killEntry(e.entryIdx)
+			}
+			break
+		}
+		if e.pool != nil && e.pool.isDead(e.entryIdx) {
+			break
 		}
 		if e.verbose && e.stats.Paths%500 == 0 {
 			fmt.Fprintf(os.Stderr, "  [%s] %d paths, trail %d, %.1fs\n", e.opts.Name, e.stats.Paths, len(e.trail), time.Since(e.start).Seconds())
@@ -1088,6 +1098,33 @@ type pool struct {
 	halt    bool
 	tasks   int
 	viol    int // counterexamples found so far (all workers)
+	dead    map[int]bool // entries given up as inconclusive: their queued work is dropped, the others go on
+}
+
+// killEntry drops the remaining work of one entry (it ended inconclusive - unsupported construct, unwinding
+// failure); the other entries of the run are explored to the end, so that a violation one of them holds is
+// still found and reported.
+func (p *pool) killEntry(entry int) {
+	p.mu.Lock()
+	if p.dead == nil {
+		p.dead = map[int]bool{}
+	}
+	p.dead[entry] = true
+	keep := p.queue[:0]
+	for _, t := range p.queue {
+		if t.entry != entry {
+			keep = append(keep, t)
+		}
+	}
+	p.queue = keep
+	p.mu.Unlock()
+	p.cond.Broadcast()
+}
+
+func (p *pool) isDead(entry int) bool {
+	p.mu.Lock()
+	defer p.mu.Unlock()
+	return p.dead[entry]
 }
 
 // maxAlternatives: the search goes on after a counterexample until this many have been found (or the tree is
@@ -1119,6 +1156,10 @@ func (p *pool) wantWork(depth int) bool {
 
 func (p *pool) put(t *task) {
 	p.mu.Lock()
+	if p.dead[t.entry] {
+		p.mu.Unlock()
+		return
+	}
 	p.queue = append(p.queue, t)
 	p.tasks++
 	p.mu.Unlock()
